@@ -822,8 +822,72 @@ def rule_f(ctx: Context, R: Reporter, bmap: FuncInfo, pred: FuncInfo):
     R.check("C16.f", "the boundary helpers keep no state between calls", n == 0, bmap, bmap.node, key="stateless")
 
 
+def rule_g(ctx: Context, R: Reporter, bmap: FuncInfo, pred: FuncInfo):
+    """C16.g  the designated index lists are *lists of coordinates*:
+      * they are tested for presence with `is None` / `len()`, never through the truth of their elements --
+        `np.any(periodic)`, `any(reflective)`, `if periodic:` on an array are false for the list `[0]`, so a boundary
+        condition on coordinate 0 alone is taken for "none requested";
+      * they are read, never modified: no in-place change (`+=`, append / extend / insert / remove / sort, item store) of
+        a periodic / reflective list or of a name that may be bound to one (`exempt = self.periodic if ... else []`):
+        the list object is shared with the configuration and the other steps, so folding and exemption silently change
+        for everybody."""
+    mod = bmap.module
+    IDX = ("periodic", "reflective")
+
+    def is_idx(e) -> bool:
+        return (isinstance(e, ast.Name) and e.id in IDX) or (isinstance(e, ast.Attribute) and e.attr in IDX)
+
+    n = 0
+    for fi in ctx.prog.functions.values():
+        if fi.module is not mod:
+            continue
+        n += 1
+        # names / attributes that may be bound to an index list as a whole
+        alias = set()
+        for x in walk_no_nested(fi.node):
+            if isinstance(x, ast.Assign) and len(x.targets) == 1:
+                v = x.value
+                cands = [v] + ([v.body, v.orelse] if isinstance(v, ast.IfExp) else []) + (list(v.values) if isinstance(v, ast.BoolOp) else [])
+                if any(is_idx(c) for c in cands):
+                    t = x.targets[0]
+                    if isinstance(t, ast.Name) and t.id not in IDX:
+                        alias.add(t.id)
+                    elif isinstance(t, ast.Attribute) and t.attr not in IDX:
+                        alias.add(t.attr)
+
+        def is_list_ref(e) -> bool:
+            return is_idx(e) or (isinstance(e, ast.Name) and e.id in alias) or (isinstance(e, ast.Attribute) and e.attr in alias)
+
+        for x in walk_no_nested(fi.node):
+            if isinstance(x, ast.Call):
+                nm = ctx.res.external_name(fi, x) or dotted(x.func)
+                if nm in ("numpy.any", "numpy.all", "builtins.any", "builtins.all", "any", "all", "numpy.count_nonzero", "builtins.bool", "bool") and x.args and is_list_ref(x.args[0]):
+                    R.check("C16.g", "index lists are tested for presence, not for the truth of their elements", False, fi, x,
+                            msg=f"{fi.short}: `{unparse(x)[:50]}` tests the truth of the *indices*: it is false for `[0]`, so a boundary condition on parameter 0 alone counts as absent and "
+                                f"that coordinate is neither folded nor (in the bounds check) exempted consistently", key=f"index-truthiness:{fi.short}")
+                if isinstance(x.func, ast.Attribute) and x.func.attr in ("append", "extend", "insert", "remove", "sort", "pop", "clear", "reverse") and is_list_ref(x.func.value):
+                    R.check("C16.g", "index lists are never modified in place", False, fi, x,
+                            msg=f"{fi.short}: `{unparse(x)[:60]}` modifies an index list (or a name that can be bound to one) in place: the list object is shared with the configuration, "
+                                f"the mutation step and the other helper, so which coordinates are folded / exempted changes behind their back", key=f"index-list-mutated:{fi.short}")
+            if isinstance(x, ast.AugAssign) and is_list_ref(x.target):
+                R.check("C16.g", "index lists are never modified in place", False, fi, x,
+                        msg=f"{fi.short}: `{unparse(x)[:60]}` extends an index list (or a name that can be bound to one) in place: when it is bound to the periodic list, the reflective "
+                            f"indices are appended to the caller's periodic list and those coordinates are wrapped instead of folded from then on", key=f"index-list-mutated:{fi.short}")
+            if isinstance(x, ast.Assign):
+                for t in x.targets:
+                    if isinstance(t, ast.Subscript) and is_list_ref(t.value):
+                        R.check("C16.g", "index lists are never modified in place", False, fi, x,
+                                msg=f"{fi.short}: `{unparse(x)[:60]}` stores into an index list", key=f"index-list-mutated:{fi.short}")
+            if isinstance(x, (ast.If, ast.While, ast.IfExp)) and is_idx(x.test):
+                R.check("C16.g", "index lists are tested for presence, not for the truth of their elements", False, fi, x.test,
+                        msg=f"{fi.short}: `if {unparse(x.test)}` is ambiguous / raises for an index *array* and conflates the empty list with None", key=f"index-truthiness:{fi.short}")
+    R.check("C16.g", "functions of the kernel module scanned for index-list misuse", True, None, None, key="index-list-scan")
+    R.floor("C16.g", "functions of the kernel module", n, 15)
+
+
 def run(ctx: Context, R: Reporter):
     bmap, pred = bounds_helpers(ctx)
+    R.guard(rule_g, ctx, R, bmap, pred)
     R.guard(rule_f, ctx, R, bmap, pred)
     R.guard(rule_e, ctx, R, bmap, pred)
     R.guard(rule_a, ctx, R, bmap)
@@ -833,7 +897,7 @@ def run(ctx: Context, R: Reporter):
 
 
 def variants():
-    from ..variants import Variant, alpha_rename, delete_stmt, replace_expr, replace_stmt
+    from ..variants import Variant, alpha_rename, delete_stmt, insert_after, replace_expr, replace_stmt
 
     mc = "tempest/mcmc.py"
     f = "apply_boundary_conditions"
@@ -856,6 +920,9 @@ def variants():
         Variant("d-benign-dead-guard-same-limit", "benign", replace_stmt(mc, f, "remainder = val - n_reflect", "remainder = val - n_reflect\nremainder = np.where(remainder >= 1.0, 1.0, remainder)")),
         Variant("benign-remainder-mod1", "benign", replace_stmt(mc, f, "remainder = val - n_reflect", "remainder = val % 1.0"), quick=True),
         Variant("benign-periodic-floor", "benign", replace_expr(mc, f, "u[..., idx] % 1.0", "u[..., idx] - np.floor(u[..., idx])")),
+        Variant("g-fast-path-tests-index-values", "bad", replace_stmt(mc, f, "u = u.copy()", "u = u.copy()\nif not (np.any(periodic) or np.any(reflective)):\n    return u"), ["C16.g"], quick=True),
+        Variant("g-benign-fast-path-tests-presence", "benign", replace_stmt(mc, f, "u = u.copy()", "u = u.copy()\nif periodic is None and reflective is None:\n    return u")),
+        Variant("g-merged-exempt-list-extended-in-place", "bad", insert_after(mc, "BaseMCMCRunner.__init__", "self.reflective = reflective", "self.exempt = self.periodic if self.periodic is not None else []\nif self.reflective is not None:\n    self.exempt += list(self.reflective)"), ["C16.g"]),
         Variant("f-memo-keyed-by-counts", "bad", _memo_key_variant(False), ["C16.f"], quick=True),
         Variant("f-benign-memo-keyed-by-index-tuples", "benign", _memo_key_variant(True)),
         Variant("f-mutable-default-special-set", "bad", _mutable_default_variant(True), ["C16.f"], quick=True),
